@@ -342,3 +342,13 @@ Example ex_lb :
   lb_run [] [0]%nat = [None] /\
   lb_run [(Some 0, 0); (None, 0)] [0; 0; 0]%nat = [Some O; Some 1%nat; Some 1%nat].
 Proof. vm_compute. repeat split. Qed.
+
+Example ex_msc :
+  c15_msc false [MQ; MQ; MK; MQ; MK; MK; MQ; MQ] = [(true, 1); (true, 1); (true, 2); (true, 3); (true, 3)] /\
+  c15_msc true [MQ; MQ; MQ] = [(true, 1); (true, 2); (true, 3)].
+Proof. vm_compute. split; reflexivity. Qed.
+
+Example ex_red_same :
+  c15_red true 2 (USkip 5) = Ok (inr (RReturnOk 5)) /\ c15_red false 2 (UErr 1) = Ok (inr (RReturnErr 1)) /\
+  c15_red true 2 (UErr 1) = Ok (inr (RReturnErr 1)) /\ c15_red true 1 (UGood 0) = Ok (inr (RReturnOk 0)).
+Proof. vm_compute. repeat split. Qed.
